@@ -4,7 +4,7 @@ Case line:  <mode> <nest0> <node>*      mode ip|newbot|tbot, nodes in pre-order,
             <guard><form><id>:<fin>:<number of children>
             guard n|e|a  (call unguarded / in `except Exception` / in `except BaseException`)
             form  d|m|w  (@tbot.testcase / @tbot.named_testcase / with tbot.testcase(...))
-            fin   p|x|s|k (pass / RuntimeError / tbot.skip / KeyboardInterrupt)
+            fin   p|x|s|k (pass / an Exception subclass / tbot.skip / KeyboardInterrupt)
 The same syntax is parsed by lean/TbotVerif/Driver/Tc.lean."""
 import itertools
 
@@ -99,13 +99,20 @@ import tbot.log
 UNIT = object()
 
 
+class Boom(Exception):
+    """a user-defined failure"""
+
+
+ERRORS = (RuntimeError, AssertionError, ValueError, Boom)
+
+
 def T(kind, name, val):
     """a mark of the program under test in tbot's own log (never printed)"""
     tbot.log.EventIO(["xt", kind], "", verbosity=tbot.log.Verbosity.CHANNEL, name=name, val=val)
 
 
 def tag(e):
-    if type(e) is RuntimeError:
+    if type(e) in ERRORS:
         return "x"
     if type(e) is tbot.SkipException:
         return "s"
@@ -143,9 +150,15 @@ class _Render:
             if node.form != "w":
                 out.append(f"{p}    return {node.id}")
         elif node.fin == "x":
-            out.append(f"{p}    raise RuntimeError('boom in {node.name}')")
+            if node.id % 4 == 1:
+                out.append(f"{p}    assert tbot is None, 'boom in {node.name}'")
+            else:
+                out.append(f"{p}    raise ERRORS[{node.id % 4}]('boom in {node.name}')")
         elif node.fin == "s":
-            out.append(f"{p}    tbot.skip('skipping {node.name}')")
+            if node.id % 2:
+                out.append(f"{p}    tbot.skip('skipping {node.name}')")
+            else:
+                out.append(f"{p}    raise tbot.SkipException('skipping {node.name}')")
         elif node.fin == "k":
             out.append(f"{p}    raise KeyboardInterrupt()")
         out += [f"{p}except BaseException as e:", f"{p}    T('Y', '{node.name}', tag(e))", f"{p}    raise"]
